@@ -208,8 +208,16 @@ WTwoEvents ==
               Bn("=", Call("str", Own("q")), Own("n"))}}
   \cup {Prop(Scope("after", Ev("w", "W", Pr(Bn("=", Own("n"), StrA("$s")))), NoPred), Pat1("no", Ev("u", "", Pr(c)))) :
       c \in {Bn(">", Call("abs", Own("n")), NumA("0")), Bn("and", Bn(">", Own("n"), NumA("1")), Bn("=", Own("s"), Fld(VarR("@W"), "n")))}}
+\* an alias and a quantified variable with the SAME name (the quantifier shadows the alias inside its condition only)
+WShadow ==
+  {Prop(Scope("after", Ev("w", "j", NoPred), NoPred), Pat1("no", Ev("u", "", Pr(c)))) :
+      c \in {Qn("forall", "j", Own("ms"), Bn("=", Fld(VarR("@j"), "t"), Own("s"))),
+             Bn("and", Qn("forall", "j", Own("ms"), Bn(">", Fld(VarR("@j"), "n"), NumA("0"))), Bn(">", Fld(VarR("@j"), "q"), NumA("0"))),
+             Bn("and", Bn("=", Fld(VarR("@j"), "n"), Own("s")), Qn("exists", "j", Own("mf"), Bn(">", Fld(VarR("@j"), "n"), NumA("0")))),
+             Bn("and", Qn("forall", "j", Own("ms"), Bn(">", Fld(VarR("@j"), "n"), NumA("0"))),
+                       Qn("exists", "j", Own("xs"), Bn(">", VarR("@j"), Own("n"))))}}
 WellTypedShapes ==
-  {Prop(Scope("after", Ev("t", "A", NoPred), NoPred), Pat1("no", Ev("u", "", Pr(c)))) : c \in WPreds} \cup WTwoEvents
+  {Prop(Scope("after", Ev("t", "A", NoPred), NoPred), Pat1("no", Ev("u", "", Pr(c)))) : c \in WPreds} \cup WTwoEvents \cup WShadow
 
 ShapeMembers ==
   CASE ShapeFamily = "simple" -> SimpleShapes
